@@ -101,6 +101,22 @@ def apply_replacement(d, file, old, new):
     return True
 
 
+def record_result(mid, own, caught):
+    """Keep the latest outcome per change in selftest/results.json (committed, informative)."""
+    p = os.path.join(env.VERIF_HOME, "selftest", "results.json")
+    try:
+        data = json.load(open(p))
+    except Exception:
+        data = {}
+    if caught:
+        data[mid] = {"property": own, "status": "killed", "by_check": caught[0], "evidence": caught[1][:200], "wall_s": round(caught[2])}
+    else:
+        data[mid] = {"property": own, "status": "survived"}
+    with open(p + ".tmp", "w") as f:
+        json.dump(data, f, indent=1, sort_keys=True)
+    os.replace(p + ".tmp", p)
+
+
 def main(arg=None):
     arg = arg or "all"
     results = []
@@ -152,6 +168,7 @@ def main(arg=None):
                 caught = None
                 print(f"MUTANT {mid}: check {prop} ended with rc={rc}: {out[-400:]}")
         shutil.rmtree(d, ignore_errors=True)
+        record_result(mid, own[0], caught)
         if caught:
             print(f"MUTANT {mid}: KILLED by {caught[0]}{'' if caught[0] == own[0] else ' (not by its own check ' + own[0] + ')'} in {caught[2]:.0f}s ({caught[1][:160]})")
             results.append((mid, caught[0], "killed"))
